@@ -70,6 +70,14 @@ Theorem C01_rest_roundtrip : forall doc ps ret,
 Proof. exact rest_roundtrip. Qed.
 Print Assumptions C01_rest_roundtrip.
 
+(* with emit_types off the text is the one of the description without its types, and reads back as that description
+   (every parameter must then carry a description: one that has only a type is not written at all) *)
+Theorem C01_rest_roundtrip_no_types : forall doc ps ret,
+  clean doc = true -> forallb param_ok (drop_typs ps) = true -> NoDup (map fst ps) -> ps <> [] -> ret_ok (option_map drop_typ ret) = true ->
+  parse_rest (emit_rest false doc ps ret) = {| p_doc := doc; p_params := drop_typs ps; p_ret := option_map drop_typ ret |}.
+Proof. exact rest_roundtrip_no_types. Qed.
+Print Assumptions C01_rest_roundtrip_no_types.
+
 (* non-vacuity: a description meeting every hypothesis, and what is written for it *)
 Example C01_rest_example :
   let ps := [(s2l "dataset_name", {| pe_doc := Some (s2l "name of dataset"); pe_typ := Some (s2l "str") |});
